@@ -408,9 +408,7 @@ impl OpBuilder {
             "sc" | "scn" => {
                 push(Op::FillColor { color: Color::Other(args.collect()) });
             }
-            "sh"  => {
-
-            }
+            "sh"  => push(Op::Shade { name: name(&mut args)? }),
             "T*"  => push(Op::TextNewline),
             "Tc"  => push(Op::CharSpacing { char_space: number(&mut args)? }),
             "Td"  => push(Op::MoveTextPosition { translation: point(&mut args)? }),
@@ -667,7 +665,10 @@ pub fn serialize_ops(mut ops: &[Op]) -> Result<Vec<u8>> {
                 writeln!(f, " CS")?;
             },
 
-            Op::RenderingIntent { intent } => writeln!(f, "{} ri", intent.to_str())?,
+            Op::RenderingIntent { intent } => {
+                serialize_name(intent.to_str(), f)?;
+                writeln!(f, " ri")?;
+            },
             Op::BeginText => writeln!(f, "BT")?,
             Op::EndText => writeln!(f, "ET")?,
             Op::CharSpacing { char_space } => writeln!(f, "{} Tc", char_space)?,
@@ -688,7 +689,7 @@ pub fn serialize_ops(mut ops: &[Op]) -> Result<Vec<u8>> {
             }
             Op::TextScaling { horiz_scale } => writeln!(f, "{} Tz", horiz_scale)?,
             Op::Leading { leading } => match ops[1..] {
-                [Op::MoveTextPosition { translation }, ..] if leading == -translation.x => {
+                [Op::MoveTextPosition { translation }, ..] if leading == -translation.y => {
                     writeln!(f, "{} {} TD", translation.x, translation.y)?;
                     advance += 1;
                 }
